@@ -108,6 +108,7 @@ var queries = []string{
 	"tbl", "tbl where a is 1", "tbl where a > 1 and b in (1, 2, 3) sort reverse a, b", "tbl extend x = a + b * 2, y = x $ 'z'", "tbl project a, b", "tbl remove c",
 	"tbl rename a to aa, b to bb", "tbl join tbl2", "tbl leftjoin by(a) tbl2", "(tbl union tbl2) where a =~ 'x'", "tbl minus tbl2", "tbl intersect tbl2", "tbl times (tbl2 rename a to a2, d to d2)",
 	"tbl summarize b, total c, max a", "tbl summarize count", "tbl where a is #20200101 or b is #(1, 2)", "tbl where a[1 .. 3] is 'bc'", "tbl where (a ? b : c) isnt false",
+	"tbl where a[::2] is 'ab' or b[1::] is c", "tbl where a[.. 2] is 'ab' and b[1 ..] > c extend x = a[:: 1]",
 	"insert { a: 1, b: 'x' } into tbl", "insert tbl2 into tbl", "update tbl where a is 1 set b = b + 1, c = 'x'", "delete tbl where a < 5",
 	"create t3 (a, b, c) key(a) index(b, c)", "ensure t3 (a, b, C, d_lower!) key(a) index unique(b)", "alter tbl create (d) index(d)", "alter tbl rename b to bb", "alter tbl drop (c)",
 	"drop t3", "view v1 = tbl where a is 1", "sview v2 = tbl join tbl2", "rename tbl to t9", "create t4 (a, b) key(a) index(b) in tbl(a) cascade update",
@@ -677,7 +678,7 @@ func TestVerifC32(t *testing.T) {
 		d   int
 		all bool // all templates, or only the first of each bracket/operator family
 	}
-	depths := []nd{{10, true}, {100, true}, {1000, true}, {10000, false}, {100000, false}}
+	depths := []nd{{10, true}, {100, true}, {1000, true}, {10000, false}, {100000, false}, {1000000, false}} // 10^5 and 10^6: paren and query-paren only
 	if vk.Thorough() {
 		depths = []nd{{10, true}, {100, true}, {1000, true}, {10000, true}, {100000, true}, {300000, true}, {1000000, false}}
 	}
